@@ -204,6 +204,14 @@ def module_work(name, mod, tier, rng, viols, cells, counters, samples, probe, ca
                 r = call_gen(g, arg_for(rule, v))
                 evals += 1
                 if r is None:
+                    o = C.outcome(g, arg_for(rule, v))
+                    shape = lambda t: ''.join('9' if ch.isdigit() else 'A' if ch.isalpha() else ch for ch in t)  # noqa: E731
+                    agreeing_shapes = {shape(x) for x in vs[:40] if rule in per_v.get(x, ())}
+                    if o[0] == 'exc' and shape(v) in agreeing_shapes:
+                        add(viols, 'C05|%s|%s|generator-raises-on-valid-number' % (name, gname.split('[')[0]),
+                            '%s accepts %r but %s(%r) raises %s (%s); the documented numbers of this length go through rule %s' % (
+                                name, v, gname, arg_for(rule, v), o[1], o[3], kind),
+                            {'module': name, 'number': v, 'generator': gname, 'rule': list(rule), 'kind': 'm1'})
                     continue
                 checkalpha.update(r)
                 cells.add((name, gname, L, r))
